@@ -465,9 +465,12 @@ func jobWarm2(run *ev.Run, c *collector, m mode, vals []jval, chunk, nchunks int
 				s := sign(f(d.keys[p/n], d.keys[p%n]))
 				if s != M0[p] {
 					bad++
-					// class: first warm-up key whose field types differ from the compared pair's first key.
+					// class: the warm-up comparison that makes the difference (found by leaving the second one out):
+					// its first key's field types against those of the compared pair's first key.
+					f1 := m.fresh()
+					f1(d.keys[w/n], d.keys[w%n])
 					tpair := typePair(m, d.keys[w/n], d.keys[p/n])
-					if tpair == "same-types" {
+					if sign(f1(d.keys[p/n], d.keys[p%n])) == M0[p] {
 						tpair = typePair(m, d.keys[v/n], d.keys[p/n])
 					}
 					sig := "history-dependence|" + m.Name + "|" + tpair
